@@ -353,6 +353,7 @@ def thread_results(body, types=None, max_clones=400):
     blocks = m["blocks"]
     clones = 0
     changed_any = False
+    cloned_defs = set()
 
     def two_variant(l):
         if types is None:
@@ -453,6 +454,7 @@ def thread_results(body, types=None, max_clones=400):
                 ni = len(blocks)
                 blocks.append(copy.deepcopy(b))
                 clones += 1
+                cloned_defs |= _locals_mentioned(b)
                 for p in groups[k]:
                     _retarget(blocks[p]["term"], i, ni)
                 changed = True
@@ -461,7 +463,186 @@ def thread_results(body, types=None, max_clones=400):
         if not changed:
             break
         changed_any = True
+    if cloned_defs:
+        split_locals(m, cloned_defs)
     return changed_any
+
+
+def _locals_mentioned(b):
+    out = set()
+
+    def rec(x):
+        if isinstance(x, dict):
+            if "local" in x and isinstance(x["local"], int):
+                out.add(x["local"])
+            for v in x.values():
+                rec(v)
+        elif isinstance(x, list):
+            for v in x:
+                rec(v)
+    rec(b["stmts"])
+    rec(b["term"])
+    return out
+
+
+def _uses_in_block(b, l):
+    """ordered events of local l in a block: ('def'|'use', position) — whole-local defs only count as defs"""
+    ev = []
+    for si, s in enumerate(b["stmts"]):
+        used = False
+        if s["k"] == "assign":
+            probe = copy.deepcopy(s["rv"])
+            holder = {"stmts": [{"k": "assign", "place": {"local": -1, "proj": []}, "rv": probe}], "term": {"k": "return"}}
+            _rename_local([holder], l, -2)
+            used = json.dumps(probe, sort_keys=True) != json.dumps(s["rv"], sort_keys=True)
+        pl = s["place"]
+        if pl["local"] == l and pl["proj"]:
+            used = True
+        if any(e["k"] == "index" and e["local"] == l for e in pl["proj"]):
+            used = True
+        if used:
+            ev.append(("use", si))
+        if pl["local"] == l and not pl["proj"]:
+            ev.append(("def", si))
+    t = b["term"]
+    probe = copy.deepcopy(t)
+    probe_dest = probe.get("dest")
+    if probe_dest is not None:
+        probe["dest"] = {"local": -1, "proj": [e for e in probe_dest["proj"]]}
+    holder = {"stmts": [], "term": probe}
+    _rename_local([holder], l, -2)
+    ref = copy.deepcopy(t)
+    if ref.get("dest") is not None:
+        ref["dest"] = {"local": -1, "proj": [e for e in ref["dest"]["proj"]]}
+    if json.dumps(probe, sort_keys=True) != json.dumps(ref, sort_keys=True):
+        ev.append(("use", 10 ** 6))
+    if t["k"] == "call":
+        if t["dest"]["local"] == l and not t["dest"]["proj"]:
+            ev.append(("def", 10 ** 6 + 1))
+        elif t["dest"]["local"] == l:
+            ev.append(("use", 10 ** 6))
+    return ev
+
+
+def split_locals(m, candidates):
+    """give each definition of a multiply-defined local its own name when every use is reached by exactly one of them
+    (the situation block duplication creates); address-taken locals are left alone"""
+    blocks = m["blocks"]
+    n = len(blocks)
+    succ = [sorted(set(_succs(b["term"]))) for b in blocks]
+    # reachability (small functions: simple DFS per needed block)
+    reach_cache = {}
+
+    def reach(a):
+        if a not in reach_cache:
+            seen = set()
+            st = list(succ[a])
+            while st:
+                x = st.pop()
+                if x in seen:
+                    continue
+                seen.add(x)
+                st.extend(succ[x])
+            reach_cache[a] = seen
+        return reach_cache[a]
+
+    # dominators
+    preds = [[] for _ in range(n)]
+    for i in range(n):
+        for x in succ[i]:
+            preds[x].append(i)
+    live = {0} | reach(0)
+    dom = {b: set(live) for b in live}
+    dom[0] = {0}
+    ch = True
+    while ch:
+        ch = False
+        for b in sorted(live):
+            if b == 0:
+                continue
+            ps = [p for p in preds[b] if p in live]
+            if not ps:
+                continue
+            nd = set.intersection(*[dom[p] for p in ps]) | {b}
+            if nd != dom[b]:
+                dom[b] = nd
+                ch = True
+    for l in sorted(candidates):
+        if l == 0 or l <= m["argc"]:
+            continue
+        # address-taken?
+        taken = False
+        events = {}
+        for bi in live:
+            b = blocks[bi]
+            for s in b["stmts"]:
+                if s["k"] == "assign" and s["rv"]["k"] in ("ref", "rawptr") and s["rv"]["place"]["local"] == l:
+                    taken = True
+            ev = _uses_in_block(b, l)
+            if ev:
+                events[bi] = ev
+        if taken:
+            continue
+        defs = [(bi, pos) for bi, ev in events.items() for (k, pos) in ev if k == "def"]
+        if len(defs) < 2 or len({bi for bi, _ in defs}) != len(defs):
+            continue
+        defblocks = [bi for bi, _ in defs]
+        owner = {}
+        ok = True
+        for bi, ev in events.items():
+            for (k, pos) in ev:
+                if k != "use":
+                    continue
+                own = []
+                for (db, dpos) in defs:
+                    if (db == bi and dpos < pos) or (db != bi and db in dom.get(bi, ())):
+                        # no other definition may lie between this definition and the use
+                        clean = True
+                        for ob in defblocks:
+                            if ob == db:
+                                continue
+                            if ob in reach(db) and (bi in reach(ob) or ob == bi):
+                                clean = False
+                        if db != bi and bi in defblocks:
+                            # the use block redefines l: the use must come before that definition
+                            dpos2 = [p2 for (b2, p2) in defs if b2 == bi][0]
+                            if dpos2 < pos:
+                                clean = False
+                        if clean:
+                            own.append(db)
+                if len(own) != 1:
+                    ok = False
+                    break
+                owner[(bi, pos)] = own[0]
+            if not ok:
+                break
+        if not ok:
+            continue
+        # rename all but the first definition
+        for (db, dpos) in defs[1:]:
+            nl = len(m["locals"])
+            m["locals"].append(dict(m["locals"][l]))
+            for bi, ev in events.items():
+                b = blocks[bi]
+                uses_here = [pos for (k, pos) in ev if k == "use" and owner.get((bi, pos)) == db]
+                for si, s in enumerate(b["stmts"]):
+                    if si in uses_here:
+                        tmp = {"stmts": [s], "term": {"k": "return"}}
+                        keep_def = s["place"]["local"] == l and not s["place"]["proj"]
+                        _rename_local([tmp], l, nl)
+                        if keep_def and not (bi == db and si == dpos):
+                            s["place"]["local"] = l
+                    if bi == db and si == dpos:
+                        s["place"]["local"] = nl
+                if 10 ** 6 in uses_here:
+                    t = b["term"]
+                    dsave = copy.deepcopy(t.get("dest")) if t.get("dest") is not None else None
+                    tmp = {"stmts": [], "term": t}
+                    _rename_local([tmp], l, nl)
+                    if dsave is not None and dsave["local"] == l and not dsave["proj"] and not (bi == db and dpos == 10 ** 6 + 1):
+                        t["dest"] = dsave
+                if bi == db and dpos == 10 ** 6 + 1:
+                    b["term"]["dest"]["local"] = nl
 
 
 def _relevant_locals(blocks, i, preds):
@@ -726,6 +907,11 @@ def normalize(d, base_idx, log=None):
     keep = []
     for b in d["bodies"]:
         if b["path"] in inlinable and b["path"] in callers:
+            # the MIR now lives in the callers; the typed HIR stays available to the table-extraction rules
+            if "hir" in b:
+                b.pop("mir", None)
+                b["inlined_into"] = sorted(set(callers[b["path"]]))
+                keep.append(b)
             continue
         if b.get("kind") == "Closure" and b.get("parent") in inlinable and b.get("parent") in callers:
             ps = [c for c in callers[b["parent"]] if c not in inlinable]
